@@ -1,7 +1,10 @@
 package main
 
 import (
+	"encoding/json"
 	"fmt"
+	"os"
+	"path/filepath"
 	"sort"
 	"strings"
 
@@ -50,6 +53,20 @@ var mapSites = []string{ // refreshed from the instrumenter's report at start-up
 	"parser.expandDefinitions#2",
 	"parser.expandDefinitions#3",
 	"parser.replaceSuffixes#1",
+}
+
+// loadSites reads the seam sites of the tree under test from the instrumenter's report.
+func loadSites(build string) {
+	data, err := os.ReadFile(filepath.Join(build, "instrument.json"))
+	if err != nil {
+		return
+	}
+	var rep struct {
+		MapSites []string `json:"map_sites"`
+	}
+	if json.Unmarshal(data, &rep) == nil && len(rep.MapSites) > 0 {
+		mapSites = rep.MapSites
+	}
 }
 
 func decisionOf(code int) int {
